@@ -81,7 +81,9 @@ def typed_value(rng, kind, i):
     if kind == 'int':
         return rng.choice([0, 1, 2, 7, -3, 10 ** 6, 2 ** 53 + 1, 2 ** 62 + i])
     if kind == 'float':
-        return rng.choice([0.5, 1.0, -2.25, 1e300, 3.0, 0.1 + i])
+        return rng.choice([0.5, 1.0, -2.25, 1e300, 3.0, 0.1 + i, 0.0, float('inf')])
+    if kind == 'float-nan':
+        return rng.choice([0.5, 0.0, float('nan'), float('nan'), -1.5])
     if kind == 'str':
         return rng.choice(['a', 'b', '', 'x y', '10', '1.0', 'None', 'nan'])
     if kind == 'bool':
@@ -113,7 +115,7 @@ def leg_typed(ns, res, spec):
         front = ['pandas', 'sqlite'][n % 2]
         w = rng.randrange(1, 5)
         names = rng.sample(names_pool, w)
-        kinds = [rng.choice(['int', 'float', 'str', 'int', 'float', 'bool'] if front == 'pandas' else ['int', 'float', 'str', 'bytes', 'mixed', 'int']) for _ in range(w)]
+        kinds = [rng.choice(['int', 'float', 'str', 'int', 'float', 'bool', 'float-nan'] if front == 'pandas' else ['int', 'float', 'str', 'bytes', 'mixed', 'int']) for _ in range(w)]
         if n % 7 == 0:
             kinds = [rng.choice(['int', 'float']) for _ in range(w)]      # an all-numeric table
         nrows = rng.randrange(1, 6)
@@ -125,7 +127,7 @@ def leg_typed(ns, res, spec):
                 cols.append([typed_value(rng, k, i) for i in range(nrows)])
         rows = [[cols[j][i] for j in range(w)] for i in range(nrows)]
         if front == 'pandas':
-            df = pd.DataFrame({names[j]: pd.Series(cols[j], dtype={'int': 'int64', 'float': 'float64', 'bool': 'bool', 'str': 'object'}[kinds[j]]) for j in range(w)})
+            df = pd.DataFrame({names[j]: pd.Series(cols[j], dtype={'int': 'int64', 'float': 'float64', 'float-nan': 'float64', 'bool': 'bool', 'str': 'object'}[kinds[j]]) for j in range(w)})
             if n % 5 == 3:
                 df.index = pd.Index([100 + i for i in range(nrows)], name='rowkey')      # an index that carries a name: still not a field
             elif n % 5 == 1:
@@ -151,6 +153,9 @@ def leg_typed(ns, res, spec):
             ('select type(a%d).__name__, a%d' % (j + 1, j + 1), lambda r, nr: [type(r[j]).__name__, r[j]], None),
             ('select a%d, a%d where a%d is not None' % (j + 1, k + 1, j + 1), lambda r, nr: [r[j], r[k]], lambda r, nr: r[j] is not None),
             ('select * where isinstance(a%d, int)' % (j + 1), lambda r, nr: list(r), lambda r, nr: isinstance(r[j], int)),
+            # the predicate is the cell itself: truthiness as the host language defines it (0, 0.0, '', None, b'' are false; NaN and inf are true)
+            ('select NR, a%d where a%d' % (j + 1, j + 1), lambda r, nr: [nr, r[j]], lambda r, nr: bool(r[j])),
+            ('select NR where a%d or a%d' % (j + 1, k + 1), lambda r, nr: [nr], lambda r, nr: bool(r[j] or r[k])),
             ('select a%d, * where NR %% 2 == 1' % (w + 2), lambda r, nr: [None] + list(r), lambda r, nr: nr % 2 == 1),
         ]
         for qtext, proj, pred in queries:
@@ -179,7 +184,7 @@ def leg_typed(ns, res, spec):
 def summarize(tier, seed, m):
     shapes = sorted(k[6:] for k in m['counters'] if k.startswith('shape:'))
     return {
-        'rule': 'structured SELECT queries (1-4 items over fields in 5 spellings, typed expressions, literals, *, a.*, b.*, * EXCEPT, UNNEST; WHERE; INNER/LEFT JOIN with 1-3 key pairs incl. NR/bNR; TOP) generated with a systematic sweep over the 64 clause combinations plus seeded random choices, on random tables of str/None cells (ragged, empty, up to 40 rows, 12 columns), with and without header; each executed through rbql.query with probe iterator/writer/registry and compared (rows exactly and in order, header, error class + record number) with the reference interpreter; the language-neutral ones also on the JS engine; a typed front-ends leg: dataframes (int64 / float64 / bool / object columns, all-numeric frames, integers beyond 2**53, a named index, a two-level named index) through DataframeIterator and sqlite tables (INTEGER / REAL / TEXT / BLOB / untyped columns with NULLs) through SqliteRecordIterator, eight select / where shapes each, every emitted field compared with the cell by value AND type. distinct_nontrivial = distinct (query text, tables) with a non-empty reference result or a predicted error.',
+        'rule': 'structured SELECT queries (1-4 items over fields in 5 spellings, typed expressions, literals, *, a.*, b.*, * EXCEPT, UNNEST; WHERE; INNER/LEFT JOIN with 1-3 key pairs incl. NR/bNR; TOP) generated with a systematic sweep over the 64 clause combinations plus seeded random choices, on random tables of str/None cells (ragged, empty, up to 40 rows, 12 columns), with and without header; each executed through rbql.query with probe iterator/writer/registry and compared (rows exactly and in order, header, error class + record number) with the reference interpreter; the language-neutral ones also on the JS engine; a typed front-ends leg: dataframes (int64 / float64 / bool / object columns, all-numeric frames, integers beyond 2**53, a named index, a two-level named index) through DataframeIterator and sqlite tables (INTEGER / REAL / TEXT / BLOB / untyped columns with NULLs) through SqliteRecordIterator, ten select / where shapes each (two of them with the bare cell as the predicate, over columns holding NaN, inf, 0, 0.0, empty strings and NULLs), every emitted field compared with the cell by value AND type. distinct_nontrivial = distinct (query text, tables) with a non-empty reference result or a predicted error.',
         'required': ['py_cases', 'emitted_records_observed', 'js_cases', 'typed_front_end_runs:pandas', 'typed_front_end_runs:sqlite'],
         'extra': {'shapes_seen': shapes},
         'assumptions': ['rv/model/refsem.py is the relational semantics of the statement', 'expressions are drawn from the typed vocabulary of rv/model/qast.py'],
